@@ -16,7 +16,11 @@ theorem spawn_enabled_only_after_deps (s s' : Pool) (tid : Nat) (hs : step s (.s
   · rename_i hg
     simp only [Bool.and_eq_true, List.all_eq_true] at hg
     exact hg.2
-  · simp at hst
+  · split at hst
+    · rename_i hg
+      simp only [Bool.and_eq_true, List.all_eq_true] at hg
+      exact hg.2
+    · simp at hst
 
 /-- **in every reachable state: a task for which a process was started has only dependencies that
     finished, are COMPLETED, and whose process ran and exited with status 0** -/
